@@ -161,14 +161,14 @@ CLAIMED = {
          "bodies is observed, not proved. Fairness between callers is not claimed.",
     technique="inductive invariant (sorted filtered pipeline) in Coq; trace acceptance under a deterministic scheduler"),
  "C10": dict(category="proof", design_ref="7 (C10)",
-    text="13 Coq theorems (all closed) for every interleaving of the runner's operations with the task thread's steps over an abstract value type, from one inductive invariant: run() at most "
+    text="28 Coq theorems (all closed) for every interleaving of the runner's operations with the task thread's steps over an abstract value type, from one inductive invariant: run() at most "
          "once and only after a successful start; stop first => never run and later start refused; second start refused; join enabled iff the thread exited and raises the task-run error iff "
          "run ended with an exception other than the stop exception; is_running exactly in RUNNING; update_settings true iff a value was posted since the previous update and then the newest "
-         "value is held, whole; release only after join. Tie: real QMI_Context + make_task with scripted task classes under the deterministic scheduler (random, PCT, DFS with preemption "
-         "bound); every operation placed at its linearisation point; the model must accept the trace with equal results, run() count and thread-exit flag; independent oracle.",
+         "value is held, whole; release only after join; the runner's constructor is part of the system: make_task returns a proxy iff the task constructor succeeded and raises the task-init error iff it raised (any BaseException), then the thread has exited, run() is never invoked and nothing is enabled afterwards; the reachable states have exactly 14 shapes (each reached by a witness); from every state with a runner stop is accepted and a stop-honouring task reaches thread exit within 4 internal steps (rank argument), join then reports the run error iff run() failed. QMI_LoopTask: the missed-period arithmetic of run() over integer ticks for all inputs - IMMEDIATE re-bases to now+period, SKIP advances to the first grid point strictly after now (minimality proved: no off-by-one), TERMINATE makes the first missed period the last iteration and loop_finalize runs, next_time is in the future at every iteration entry and stays on the grid. Tie: real QMI_Context + make_task with scripted task classes under the deterministic scheduler (random, PCT, DFS with preemption "
+         "bound); every operation placed at its linearisation point; the model must accept the trace with equal results, run() count and thread-exit flag; a share of the schedules and two exhaustive DFS scenarios switch at source-line granularity inside update_settings / set_settings / get_pending_settings / _TaskThread.run/start_task/stop_task; the exception class raised by run() and by the task constructor is an input (Exception, custom BaseException, SystemExit, KeyboardInterrupt, stop exception and subclass); real QMI_LoopTask subclasses under virtual time with scripted iteration durations, run()'s next_time read at every iteration; independent oracles.",
     note="Trusted: Coq kernel+vm_compute; hand model; dsched; observation hooks in c10.py. Each label is assumed atomic (regions under _state_cond, Event ops, single deque ops); the RPC worker "
          "serialises runner methods; task scripts terminate (join on a never-ending task blocks by documentation and is exercised only as an expected deadlock).",
-    technique="LTS with inductive invariant over label lists; trace acceptance at linearisation points"),
+    technique="LTS with inductive invariant over label lists and a rank argument for termination; trace acceptance at linearisation points with line-level DFS; functional model of the loop-task arithmetic checked against real runs under virtual time"),
  "C05": dict(category="proof", design_ref="7 (C05)",
     text="9 generic Coq theorems (all closed) over a model of Python attribute lookup along the MRO (type.__getattribute__ for what inspect.getmembers/make_interface_descriptor "
          "advertises, object.__getattribute__ for what _check_and_get_method dispatches), the worker step and proxy construction: a request naming a non-dispatchable name executes "
